@@ -17,6 +17,7 @@ import (
 	"regexp"
 	"runtime/debug"
 	"strings"
+	"sync/atomic"
 	"testing"
 
 	"pgregory.net/rapid"
@@ -101,7 +102,28 @@ func statusHook(meta Meta, op string) func(t *rapid.T, parent reflect.Type, f re
 			}
 		}
 	}
+	// header names the operation declares on any of its responses (generated documents only)
+	var declared map[string]bool
+	for i := range meta.Doc.Ops {
+		if alnumLower(meta.Doc.Ops[i].ID) == alnumLower(op) {
+			declared = map[string]bool{}
+			for _, r := range meta.Doc.Ops[i].Responses {
+				for _, h := range r.Headers {
+					declared[alnumLower(h.Name)] = true
+				}
+			}
+		}
+	}
 	return func(t *rapid.T, parent reflect.Type, f reflect.StructField, v reflect.Value) bool {
+		if declared != nil && f.Name != "StatusCode" && f.Name != "Response" && parent.Kind() == reflect.Struct {
+			if _, isWrapper := parent.FieldByName("Response"); isWrapper && !declared[alnumLower(f.Name)] {
+				// known finding excluded by construction (counted): the wrapper type was built for another
+				// response over the same body component and has a header field this operation does not
+				// declare; a handler cannot meaningfully set it
+				ExcludedUndeclaredHeader.Add(1)
+				return true
+			}
+		}
 		if f.Name != "StatusCode" || f.Type.Kind() != reflect.Int {
 			return false
 		}
@@ -385,11 +407,17 @@ func runPackage(u *vk.Unit, p *reg.Package, meta Meta, pkg string) {
 			for k, c := range bld.Unsupported {
 				u.LabelN("unsupported:"+k, c)
 			}
+			if n := ExcludedUndeclaredHeader.Swap(0); n > 0 {
+				u.LabelN("excluded:undeclared-header-field-of-shared-wrapper", int(n))
+			}
 		}
 	}
 }
 
 var ignoreTime bool
+
+// ExcludedUndeclaredHeader counts wrapper header fields left unset because the operation does not declare them.
+var ExcludedUndeclaredHeader atomic.Int64
 
 // securityAware wraps a handler CallFn so that documents with security schemes work: every
 // SecuritySource supplies a non-empty credential, every SecurityHandler accepts.
